@@ -120,6 +120,36 @@ pub fn check_triple(n: usize, a: Option<i64>, b: Option<i64>, c: Option<i64>, st
             st.sample(|| json!({"expression": sp, "n": n, "result": exp}));
         }
     }
+    // the slice as a projection with something after it (the selected elements must be exactly those of the bare
+    // slice, in that order, whatever evaluates the continuation), and handed on through a pipe
+    if step != 0 {
+        let body = spellings[0].trim_start_matches("xs").to_string();
+        let objs: Vec<Value> = (0..n).map(|i| json!({ "v": i })).collect();
+        let doc2 = json!({ "xs": (0..n).map(|i| json!(i)).collect::<Vec<Value>>(), "os": objs });
+        let rc2 = value_to_var(&doc2);
+        let exp = expected_slice(n, a, b, step);
+        let len = exp.as_array().unwrap().len();
+        for (sp, want) in [
+            (format!("os{}.v", body), exp.clone()),
+            (format!("os{}.{{k: v}}.k", body), exp.clone()),
+            (format!("xs{} | length(@)", body), json!(len)),
+            (format!("os{}.v | [0]", body), exp.as_array().unwrap().first().cloned().unwrap_or(Value::Null)),
+        ] {
+            st.states += 1;
+            st.transitions += 1;
+            st.evaluations += 1;
+            st.validated += 1;
+            let out = match guarded(|| jmespath::compile(&sp)) {
+                Ok(Ok(e)) => run_impl(&e, &rc2),
+                Ok(Err(e)) => Out::CompileErr(e),
+                Err(m) => Out::Panic(m),
+            };
+            if !matches!(&out, Out::Value(v, false) if *v == want) {
+                let case = json!({"kind": "slice", "n": n, "expression": sp, "document": doc2});
+                st.violate(viol("C07/slice/continued-projection", "slice-string", case, want.to_string(), out.brief()));
+            }
+        }
+    }
     // direct API
     if step != 0 {
         let fits = |x: Option<i64>| x.map_or(true, |v| v >= i32::MIN as i64 && v <= i32::MAX as i64);
